@@ -13,6 +13,7 @@ import (
 	"sync"
 	"sync/atomic"
 	"time"
+	"unsafe"
 
 	"github.com/hprose/hprose-golang/v3/rpc/core"
 	"github.com/hprose/hprose-golang/v3/rpc/plugins/push"
@@ -322,6 +323,35 @@ func (e *env) broadcast(from string, via string, t int, m int64) string {
 	return mapStr(r.(map[string]bool))
 }
 
+// responderOf reads (read-only, by reflection, under the shard's own lock) which channel is
+// registered in b.responders for the client: 0 if none.  The script thread uses it to know that
+// a poll it has started has really reached the point where it waits (its responder, a channel
+// different from the one seen before the poll started, is registered) before it goes on.
+func responderOf(b *push.Broker, id string) (p uintptr, keep reflect.Value) {
+	defer func() {
+		if recover() != nil {
+			p = 0
+		}
+	}()
+	f := reflect.ValueOf(b).Elem().FieldByName("responders")
+	for i := 0; i < f.Len(); i++ {
+		sh := f.Index(i).Elem()
+		mu := (*sync.RWMutex)(unsafe.Pointer(sh.FieldByName("RWMutex").UnsafeAddr()))
+		items := sh.FieldByName("items")
+		mu.RLock()
+		v := items.MapIndex(reflect.ValueOf(id))
+		if v.IsValid() && !v.IsNil() {
+			keep = v.Elem() // holding the Value keeps the channel alive, so its address is not reused
+			p = keep.Pointer()
+		}
+		mu.RUnlock()
+		if p != 0 {
+			return p, keep
+		}
+	}
+	return 0, keep
+}
+
 // ------------------------------------------------------------------ kind "seq"
 
 type pending struct {
@@ -402,16 +432,38 @@ func runSeq(c *c19Case, obs *c19Obs) {
 			}
 			p := &pending{done: make(chan struct{}), t0: t0}
 			k := op.C
+			before, keepAlive := responderOf(e.broker, cid(k))
 			go func() {
 				p.res, _ = e.poll(k)
 				p.t1 = time.Now().UnixNano()
 				close(p.done)
 			}()
-			// a poll that has something to return (or no subscription) returns at once
+			// the poll either returns at once (something to return, or no subscription) or registers
+			// its responder and waits
+			registered := false
+			for spin := 0; spin < 4000 && !registered; spin++ {
+				select {
+				case <-p.done:
+					spin = 1 << 30
+				default:
+					if now, _ := responderOf(e.broker, cid(k)); now != 0 && now != before {
+						registered = true
+					} else {
+						time.Sleep(50 * time.Microsecond)
+					}
+				}
+				if spin >= 1<<30 {
+					break
+				}
+			}
+			_ = keepAlive.IsValid()
 			select {
 			case <-p.done:
 				logEv(c19Event{E: "L", C: k, R: p.res, T0: p.t0, T1: p.t1})
-			case <-time.After(4 * time.Millisecond):
+			default:
+				if !registered {
+					obs.Err = "a poll neither returned nor registered its responder"
+				}
 				logEv(c19Event{E: "L", C: k, R: "W", T0: p.t0, T1: time.Now().UnixNano()})
 				pend[k] = p
 			}
@@ -501,6 +553,7 @@ func runStress(c *c19Case, obs *c19Obs) {
 	}
 	var stop int32
 	var wg sync.WaitGroup
+	deadline := time.Now().Add(12 * time.Second) // a broker that wedges must not wedge the check
 	// consumers
 	flushed := make([]int32, c.Clients+1)
 	for k := 1; k <= c.Clients; k++ {
@@ -509,6 +562,12 @@ func runStress(c *c19Case, obs *c19Obs) {
 			defer wg.Done()
 			empties := 0
 			for n := 0; n < 100000; n++ {
+				if time.Now().After(deadline) {
+					mu.Lock()
+					obs.Notes = append(obs.Notes, fmt.Sprintf("client %d: deadline of the stress run reached", k))
+					mu.Unlock()
+					return
+				}
 				t0 := time.Now().UnixNano()
 				r, by := e.poll(k)
 				t1 := time.Now().UnixNano()
@@ -585,7 +644,7 @@ func runStress(c *c19Case, obs *c19Obs) {
 			defer pwg.Done()
 			r := rand.New(rand.NewSource(seeds[p]))
 			from := "p" + strconv.Itoa(p+1)
-			for i := 0; i < c.PerPub; i++ {
+			for i := 0; i < c.PerPub && time.Now().Before(deadline); i++ {
 				m := int64(p+1)*1000000 + int64(i)
 				t := 1 + r.Intn(c.Topics)
 				kind := []string{"uni", "uni", "uni", "multi", "bcast"}[r.Intn(5)]
